@@ -193,6 +193,8 @@ class View:
                 return {k: self._wrap(x) for k, x in cell.items.items()}
         if isinstance(v, tuple):
             return tuple(self._wrap(x) for x in v)
+        if isinstance(v, list):
+            return [self._wrap(x) for x in v]
         if type(v).__name__ == 'AbsObj':
             return View(self._c, v.attrs, self._heap)
         return v
@@ -446,6 +448,8 @@ class Ctx:
         if self.mode == 'conc' or not (is_sym(a) or is_sym(b)):
             if scale is not None and not isinstance(a, (bool, str)) and a is not None:
                 try:
+                    if abs(a) == float('inf') or abs(b) == float('inf'):
+                        return a == b
                     return abs(a - b) <= self.TOL * max(abs(a), abs(b), abs(scale))
                 except TypeError:
                     pass
@@ -647,6 +651,17 @@ class Ctx:
 
     def sqrt(self, x):
         return math.sqrt(x) if not is_sym(x) and self.mode == 'conc' else self._uf1('u_sqrt')(to_real(x))
+
+    def inf(self):
+        """+infinity: an opaque positive constant in proofs (only equalities of the form x == y + inf are claimed
+        about it), float('inf') when replaying"""
+        if self.mode == 'conc':
+            return float('inf')
+        k = z3.Real('K_inf')
+        if 'K_inf' not in self.uf:
+            self.uf['K_inf'] = k
+            self.assumed.append(k > 0)
+        return k
 
     def pow(self, a, b):
         """a**b for a non-integer exponent: uninterpreted in proofs"""
@@ -862,6 +877,8 @@ def _close(a, b, tol):
     try:
         if a != a and b != b:
             return True
+        if a in (float('inf'), float('-inf')) or b in (float('inf'), float('-inf')):
+            return False
         return abs(a - b) <= tol * max(abs(a), abs(b)) + 1e-300
     except TypeError:
         return a == b
